@@ -84,6 +84,24 @@ def one_benign(prop, family, funcs):
         shutil.rmtree(tree, ignore_errors=True)
 
 
+EQUIV = os.path.join(VERIF, 'equivalent')
+
+
+def one_equiv(prop, name):
+    p = os.path.join(EQUIV, name, 'patch.diff')
+    tree = export_worktree()
+    try:
+        r = subprocess.run(['patch', '-p1', '-s', '-f', '-i', p], cwd=tree, stdout=subprocess.PIPE, stderr=subprocess.STDOUT,
+                           universal_newlines=True)
+        if r.returncode != 0:
+            return 'rewrite:' + name, -1, 0, ['skipped (patch does not apply to the current tree)']
+        code, out = run_check(tree, prop)
+        rep = [l.strip() for l in out.splitlines() if 'violated:' in l or 'ANALYSIS-BROKEN' in l][:4]
+        return 'rewrite:' + name, 1, code, rep
+    finally:
+        shutil.rmtree(tree, ignore_errors=True)
+
+
 def self_test(ctx):
     """returns (ok, messages); fills ctx.mutants / ctx.benign"""
     import benign
@@ -107,6 +125,11 @@ def self_test(ctx):
     with ThreadPoolExecutor(max_workers=4) as ex:
         mf = [ex.submit(one_mutant, prop, d) for d, m in seeds]
         bf = [ex.submit(one_benign, prop, fam, funcs) for fam in benign.FAMILIES]
+        if os.path.isdir(EQUIV):
+            for name in sorted(os.listdir(EQUIV)):
+                mp = os.path.join(EQUIV, name, 'meta.json')
+                if os.path.isfile(mp) and prop in json.load(open(mp)).get('properties', []):
+                    bf.append(ex.submit(one_equiv, prop, name))
         mres = [f.result() for f in mf]
         bres = [f.result() for f in bf]
     expected = {d: m.get('outcome') for d, m in seeds}
